@@ -130,6 +130,15 @@ var templates = []template{
 		sb.WriteString(body(es))
 		return sb.String()
 	}},
+	// the host builtin reached through LEnv.FunCall (funcall / apply / a sequence callback) instead of a direct call:
+	// a host panic then unwinds through FunCall's own bookkeeping before eval recovers it
+	{name: "host-via-funcall", render: func(es []string) string { return strings.ReplaceAll(body(es), "(snap)", "(funcall snap)") }},
+	{name: "host-via-apply-in-function", render: func(es []string) string {
+		return "(funcall (lambda () " + strings.ReplaceAll(body(es), "(snap)", "(apply snap ())") + " 'done))"
+	}},
+	{name: "host-as-map-callback", loop: true, render: func(es []string) string {
+		return fmt.Sprintf("(dotimes (i %d) %s (map 'list snap1 '(0)))", len(es), first(es))
+	}},
 	{name: "tail-loop", loop: true, render: func(es []string) string {
 		return fmt.Sprintf("(labels ([lp (i) (if (>= i %d) 'done (progn %s (snap) (lp (+ i 1))))]) (lp 0))", len(es), first(es))
 	}},
@@ -198,15 +207,18 @@ func newRig() *rig {
 		g.confirmed++
 		return lisp.Nil()
 	})
+	snap1 := el.Fn("snap1", []string{"x"}, func(env *lisp.LEnv, args *lisp.LVal) *lisp.LVal {
+		return snap.Eval(env, lisp.SExpr(nil))
+	})
 	nx := el.Fn("nx", nil, func(env *lisp.LEnv, args *lisp.LVal) *lisp.LVal {
 		return lisp.Int(g.snapCalls + 1)
 	})
-	g.env = el.MustEnv(el.Opts{Builtins: []lisp.LBuiltinDef{snap, nx}})
+	g.env = el.MustEnv(el.Opts{Builtins: []lisp.LBuiltinDef{snap, snap1, nx}})
 	// make the host builtins visible from package p as well
 	if o := g.env.Load(prelude); o.IsErr {
 		panic("harness: prelude: " + o.Full())
 	}
-	if o := g.env.Load("(in-package 'p) (set 'snap user:snap) (set 'nx user:nx) (in-package 'user)"); o.IsErr {
+	if o := g.env.Load("(in-package 'p) (set 'snap user:snap) (set 'snap1 user:snap1) (set 'nx user:nx) (in-package 'user)"); o.IsErr {
 		panic("harness: prelude2: " + o.Full())
 	}
 	return g
@@ -641,7 +653,7 @@ func run(r *core.Run) {
 	r.Bound("templates", len(templates))
 	r.Bound("effects_per_operation", seqLen)
 	r.Bound("history_depth", depth)
-	r.Rule("explicit-state BFS over histories of top-level operations on one runtime. Operation = entry point x program template (14: top level, lambda call, a multi-form function defined in another package calling thunks (also swallowed and followed by more effects), let/labels, handler-bind body, inside a handler, ignore-errors, nested load-string with in-package, macro expansion time, tail loop, dotimes, map callback, foldl callback) x effect sequence over 7 effect kinds (set, set!, defun, assoc!, append!, export, use-package) x fault. " +
+	r.Rule("explicit-state BFS over histories of top-level operations on one runtime. Operation = entry point x program template (17: top level, lambda call, the host builtin reached through funcall / apply / as a map callback, a multi-form function defined in another package calling thunks (also swallowed and followed by more effects), let/labels, handler-bind body, inside a handler, ignore-errors, nested load-string with in-package, macro expansion time, tail loop, dotimes, map callback, foldl callback) x effect sequence over 7 effect kinds (set, set!, defun, assoc!, append!, export, use-package) x fault. " +
 		"Depth 1: the COMPLETE fault space of every operation (no fault; ordinary host error and host panic at every host-call index; step budget at every n in 1..N; cancellation at every k in 1..N; physical height limit at every h in 1..H+1). " +
 		"Depth 2: from every distinct state reached (canonical state = list of cleanly completed effects + template and fault kind of the last operation) a second operation from a reduced alphabet under every entry point with boundary faults. A state/transition is non-trivial when the operation was faulted; distinct by (history, operation)")
 	r.Assume("an effect is confirmed when the host builtin (snap) that follows it returned normally; a failed run must be equivalent to the state after c or c+1 effects (the effect completed but its snap did not)")
